@@ -39,6 +39,8 @@ type connRec struct {
 	sc       *gortsplib.ServerConn
 	port     int
 	closed   bool
+	openedAt time.Time
+	closedAt time.Time
 	closeErr string
 	claimed  bool // a client connection of the harness was matched with it
 }
@@ -133,7 +135,7 @@ type hBase struct{ c *core }
 func (h hBase) OnConnOpen(ctx *gortsplib.ServerHandlerOnConnOpenCtx) {
 	addr := ctx.Conn.NetConn().RemoteAddr().(*net.TCPAddr)
 	h.c.mu.Lock()
-	r := &connRec{sc: ctx.Conn, port: addr.Port}
+	r := &connRec{sc: ctx.Conn, port: addr.Port, openedAt: time.Now()}
 	h.c.conns[addr.String()] = r
 	h.c.byConn[ctx.Conn] = r
 	h.c.notify()
@@ -144,6 +146,7 @@ func (h hBase) OnConnClose(ctx *gortsplib.ServerHandlerOnConnCloseCtx) {
 	h.c.mu.Lock()
 	if r, ok := h.c.byConn[ctx.Conn]; ok {
 		r.closed = true
+		r.closedAt = time.Now()
 		if ctx.Error != nil {
 			r.closeErr = ctx.Error.Error()
 		}
